@@ -576,26 +576,38 @@ func (f *Frame) contractCall(c *ssa.CallCommon, ct *FuncContract, callee *ssa.Fu
 	if preHolds != "true" {
 		preHolds = ex.def(f.pfx+"pre", "Bool", preHolds)
 	}
+	// the value of a panic raised by the callee: constrained by the callee's panic_value claim, else arbitrary
+	calleePV := ex.decl(f.pfx+"pv", "Any")
+	ex.assume("(not (= " + calleePV + " nil.Any))")
+	if ct.PanicValue != nil && !frameOnly {
+		envPV := f.contractEnv(ct, bind, f.st, f.st)
+		ex.assume(implies(f.pc, substSX(ct.PanicValue.Term, func(a string, old bool) (string, bool) {
+			if a == "$pv" {
+				return calleePV, true
+			}
+			return envPV(a, old)
+		})))
+	}
 	if ct.Panics != nil && !mentions(ct.Panics.Term, ghostNames) && !frameOnly {
 		pc := substSX(ct.Panics.Term, envPre)
 		pcn := ex.def(f.pfx+"panics", "Bool", pc)
-		f.panicEdge(pcn, "callee_panics", anchor)
+		f.panicEdgeV(pcn, "callee_panics", anchor, calleePV)
 	}
 	if !frameOnly {
 		for _, r := range ct.Rejects {
 			if mentions(r.Term, ghostNames) {
 				continue
 			}
-			f.panicEdge(ex.def(f.pfx+"rejects", "Bool", substSX(r.Term, envPre)), "callee_panics", anchor)
+			f.panicEdgeV(ex.def(f.pfx+"rejects", "Bool", substSX(r.Term, envPre)), "callee_panics", anchor, calleePV)
 		}
 		if ct.PanicsMay != nil && !mentions(ct.PanicsMay.Term, ghostNames) {
 			mp := ex.decl(f.pfx+"maypanic", "Bool")
-			f.panicEdge(ex.def(f.pfx+"panicsmay", "Bool", and(substSX(ct.PanicsMay.Term, envPre), mp)), "callee_panics", anchor)
+			f.panicEdgeV(ex.def(f.pfx+"panicsmay", "Bool", and(substSX(ct.PanicsMay.Term, envPre), mp)), "callee_panics", anchor, calleePV)
 		}
 	}
 	if ct.MayPanic {
 		mp := ex.decl(f.pfx+"maypanic", "Bool")
-		f.panicEdge(mp, "callee_may_panic", anchor)
+		f.panicEdgeV(mp, "callee_may_panic", anchor, calleePV)
 	}
 	// effects
 	if ct.HavocAll {
@@ -738,6 +750,19 @@ func (f *Frame) contractCall(c *ssa.CallCommon, ct *FuncContract, callee *ssa.Fu
 		}
 	}
 	for _, e := range ct.Ensures {
+		if len(e.Ghost) > 0 && e.GhostPattern != nil && !mentions(e.Term, ghostNames) && !frameOnly {
+			// a relational clause with trigger terms: assumed as a quantified formula (instantiated by matching)
+			bound := map[string]bool{}
+			var bs []string
+			for _, g := range e.Ghost {
+				bound[g.Name] = true
+				bs = append(bs, "("+g.Name+" "+g.Sort+")")
+			}
+			body := substSXb(e.Term, envPost, bound, false)
+			pat := substSXb(e.GhostPattern, envPost, bound, false)
+			ex.assume(implies(f.pc, "(forall ("+strings.Join(bs, " ")+") (! "+body+" :pattern "+pat+"))"))
+			continue
+		}
 		if len(e.Ghost) > 0 || mentions(e.Term, ghostNames) {
 			continue
 		}
@@ -792,11 +817,11 @@ func (f *Frame) inlineCall(callee *ssa.Function, ct *FuncContract, args []Val, c
 	if ct != nil {
 		ex.funcsUsed[ct.Key] = "inlined"
 	}
-	child.onPanic = func(cond, kind, anchor string, st *State) {
+	child.onPanic = func(cond, kind, anchor, val string, st *State) {
 		// a panic leaving the inlined callee is a panic at this call site of the caller
 		save := f.st
 		f.st = st
-		f.raise(cond, kind, shortName(ex.P.keyOf(callee))+"."+anchor)
+		f.raiseV(cond, kind, shortName(ex.P.keyOf(callee))+"."+anchor, val)
 		f.st = save
 	}
 	for i, p := range callee.Params {
